@@ -295,7 +295,16 @@ def f44():
     return f"accepted: {tuple(kv)}"
 
 
-for name, fn in (("F36", f36), ("F37", f37), ("F38", f38), ("F39", f39), ("F40", f40), ("F41", f41), ("F42", f42), ("F43", f43), ("F44", f44)):
+def f45():
+    """C15: weights whose weight function is exactly 0 at an end raised AttributeError before the repair"""
+    try:
+        Curve([0, 0, 1, 1], [1, 2], [0, 1])
+    except ValueError:
+        return True
+    return "accepted"
+
+
+for name, fn in (("F36", f36), ("F37", f37), ("F38", f38), ("F39", f39), ("F40", f40), ("F41", f41), ("F42", f42), ("F43", f43), ("F44", f44), ("F45", f45)):
     if len(sys.argv) > 1 and name not in sys.argv[1:]:
         continue
     t(name, fn)
